@@ -803,6 +803,30 @@ def run(ctx, rep):
            "the view also defines %s: a peer can now delete attributes of the wrapped object through the view although the "
            "connection's configuration has allow_delattr off (an object's own hook wins over the configuration)" % extra_hooks,
            ctx.loc(view), kind="site")
+    # every call builds its own view from its own two lists: what restricted() returns is a fresh instance of the view class
+    # defined in that very call (a view looked up in a cache was built for somebody else's lists)
+    rets_v = [n for n in A.walk(fr.node) if isinstance(n, ast.Return) and A.enclosing(n, ast.FunctionDef) is fr.node]
+    gfr = ctx.cfg(fr)
+    rdv = Q.ReachingDefs(gfr)
+    stale = []
+    for r_ in rets_v:
+        v_ = r_.value
+        if isinstance(v_, ast.Call) and isinstance(v_.func, ast.Name) and v_.func.id == view.name:
+            continue
+        okv = False
+        if isinstance(v_, ast.Name):
+            node_ = [x for x in gfr.live if x.ast is r_]
+            defs_ = rdv.at(node_[0], v_.id) if node_ else set()
+            okv = bool(defs_) and all(d_ != "param" and isinstance(d_.ast, ast.Assign) and isinstance(d_.ast.value, ast.Call) and
+                                      isinstance(d_.ast.value.func, ast.Name) and d_.ast.value.func.id == view.name for d_ in defs_)
+        if not okv:
+            stale.append(r_)
+    rep.floor("R06.6", "return sites of restricted()", len(rets_v), 1)
+    rep.ob("R06.6", "restricted: every call returns a fresh instance of the view class it has just defined", not stale,
+           "return %s()" % view.name if not stale else
+           "`%s` can return a view that was not built by this call: a view created for one (read list, write list) pair is handed "
+           "to a caller who asked for another - e.g. a read-only request gets somebody's writable view" % A.src(stale[0])[:60],
+           ctx.loc(stale[0]) if stale else fr.loc, kind="site")
     # wattrs default
     dflt = [n for n in A.walk(fr.node) if isinstance(n, ast.If) and "is None" in A.src(n.test) and rprm[2] in A.src(n.test)]
     okd = (bool(dflt) and A.norm(dflt[0].body[0]) == "%s = %s" % (rprm[2], rprm[1])) if okd_model is None else okd_model
